@@ -543,6 +543,13 @@ func (s *ATStmt) Render(sc *ATSchema) (string, []interface{}, string) {
 	fmt.Fprintf(&o.tok, "G%d:", len(o.args))
 	if s.ForceFail {
 		t := o.tok.String()
+		if s.Kind == 'Y' && s.Form == 'r' {
+			// a REPLACE the database fails is ONE failing statement: nothing deleted, nothing inserted, no image and
+			// no lock key (the executor learns the keys from the after image, which it never reaches)
+			if sp := strings.Index(t, " "); sp >= 0 {
+				t = t[sp+1:]
+			}
+		}
 		o.tok.Reset()
 		o.tok.WriteString("!" + t)
 	}
